@@ -465,9 +465,50 @@ pub struct C0(pub u8); pub struct C1(pub u16); pub struct C2(pub u32); pub struc
                     ws.append(W('query.' + tag, code, 'compile', None, 'query views %s over %d components' % (views, n)))
                     code = P + 'pub fn w(world: &mut World<%s>, id: ent::Identifier) {\n    let mut e = world.entry(id).unwrap();\n    if let Some(result!(%s)) = e.query(Query::<Views!(%s)>::new()) {\n%s    }\n}\n' % (reg, names, views, checks)
                     ws.append(W('entry.' + tag, code, 'compile', None, 'World::entry query views %s' % views))
+                    code = P + 'pub fn w(world: &mut World<%s>) {\n    use rayon::iter::ParallelIterator;\n    world.par_query(Query::<Views!(%s)>::new()).iter.for_each(|result!(%s)| {\n%s    });\n}\n' % (reg, views, names, checks)
+                    ws.append(W('parquery.' + tag, code, 'compile', None, 'parallel query views %s over %d components' % (views, n)))
                     if tier == 'thorough' or len(perm) == n:
                         # entry views: declare all mutable, ask sub-views in this order with these kinds
                         sup = ', '.join('&mut C%d' % i for i in sorted(subset))
                         code = P + 'pub fn w(world: &mut World<%s>, id: ent::Identifier) {\n    let mut qr = world.query(Query::<Views!(), filter::None, Views!(), Views!(%s)>::new());\n    let mut e = qr.entries.entry(id).unwrap();\n    if let Some(result!(%s)) = e.query(Query::<Views!(%s)>::new()) {\n%s    }\n}\n' % (reg, sup, names, views, checks)
                         ws.append(W('subviews.' + tag, code, 'compile', None, 'sub-views %s of entry views %s' % (views, sup)))
     return ws, True
+
+
+# -------------------------------------------------------------------------------------------------
+def _filters(depth, comps):
+    base = ['filter::None'] + ['filter::Has<%s>' % c for c in comps] + ['&%s' % comps[0], '&mut %s' % comps[-1], 'Option<&%s>' % comps[0], 'ent::Identifier']
+    if depth == 0:
+        return base
+    sub = _filters(depth - 1, comps)
+    out = list(base)
+    picks = sub[:6]
+    for a in picks:
+        out.append('filter::Not<%s>' % a)
+        for b in picks[:4]:
+            out.append('filter::And<%s, %s>' % (a, b))
+            out.append('filter::Or<%s, %s>' % (a, b))
+    return out
+
+
+@family('V-FILTER', props=['C03'], floor={'quick': 20, 'thorough': 60},
+        doc='every filter expression (Has / Not / And / Or / None, views used as filters, nested) over components anywhere in the registry is accepted for sequential queries, parallel queries and systems')
+def v_filter(tier, seed):
+    P = '''use brood::{entity, Registry, Resources, World, Query, query::{Views, result, filter}};
+use brood::entity as ent;
+pub struct C0(pub u8); pub struct C1(pub u16); pub struct C2(pub u32);
+type R = Registry!(C0, C1, C2);
+'''
+    ws = []
+    fl = _filters(1 if tier == 'quick' else 2, ['C0', 'C1', 'C2'])
+    if tier == 'quick':
+        fl = fl[:8] + fl[8::5]
+    else:
+        fl = fl[:400]
+    for i, f in enumerate(fl):
+        code = P + 'pub fn w(world: &mut World<R>) {\n    let _ = world.query(Query::<Views!(&C1), %s>::new()).iter.count();\n}\n' % f
+        ws.append(W('query.%03d.%s' % (i, f.replace('filter::', '').replace(' ', '')[:60]), code, 'compile', None, 'filter %s' % f))
+        if i % 3 == 0:
+            code = P + 'pub fn w(world: &mut World<R>) {\n    use rayon::iter::ParallelIterator;\n    let _ = world.par_query(Query::<Views!(&C1), %s>::new()).iter.count();\n}\n' % f
+            ws.append(W('parquery.%03d.%s' % (i, f.replace('filter::', '').replace(' ', '')[:60]), code, 'compile', None, 'filter %s (parallel)' % f))
+    return ws, tier == 'thorough'
